@@ -47,6 +47,7 @@ class Task:
         self.lidx = []
         self.use_stream = False
         self.ostream = None
+        self.stepped = False
         self.samples = []  # sample states (library objects) for the event oracles
         self.events = []
         self.rebound = False  # another orbit sharing the propagator was used since start
@@ -554,12 +555,8 @@ class Sim:
         t.use_stream = bool(lidx) or kind == "keplernum" or (kind == "ephem" and self.specs[i]["src"]["kind"] == "keplernum")
         self.mark_use(i, by_task=t)
         for j in lidx:
-            users = self.listener_users.setdefault(j, set())
-            for u in users:
-                if self.tasks[u].state == "running":
-                    self.tasks[u].lshared_live = True
-                    t.lshared_live = True
-            users.add(tid)
+            # creating an iteration does not touch the listeners (they are cleared at its first step)
+            self.listener_users.setdefault(j, set()).add(tid)
         live = len([x for x in self.tasks.values() if x.state == "running"])
         if any(x is not t and x.obj == i and x.state == "running" for x in self.tasks.values()):
             ctx.probe("two_live_tasks_same_object")
@@ -632,9 +629,12 @@ class Sim:
                 except Exception as e:  # noqa
                     item, exc = None, e
             self.mark_use(t.obj, by_task=t)
+            t.stepped = True
             for j in getattr(t, "lidx", []):
                 for u in self.listener_users.get(j, ()):
-                    if u != t.tid and self.tasks[u].state == "running":
+                    # two iterations *being consumed* at the same time through one listener object
+                    # (the plan's own doing): each sees the other's `prev` state
+                    if u != t.tid and self.tasks[u].state == "running" and self.tasks[u].stepped:
                         self.tasks[u].lshared_live = True
                         t.lshared_live = True
             if exc is StopIteration:
@@ -762,6 +762,17 @@ class Sim:
                 self.compare_value(t, i, ms, (vals, form, frame), self.oracle_propagate(i, ems), where)
         if self.hooks and t.state == "running":
             self.hooks.on_item(self, t, item, is_event)
+        if t.call.get("scribble") and not t.lidx and t.call["call"] != "for":  # `for p in ephem` hands out the stored points themselves, by design
+            # the consumer owns what it was given: it changes the form (and, outside the Hill frame, the
+            # frame) of the yielded state in place, as TopocentricFrame.visibility itself does
+            with self.node:
+                try:
+                    item.form = t.call["scribble"]
+                    if kind != "cw" and not (kind == "ephem" and self.specs[i]["src"]["kind"] == "cw") and t.call.get("scribble_frame"):
+                        item.frame = t.call["scribble_frame"]
+                except Exception:  # noqa - e.g. a degenerate state in that form; irrelevant here
+                    pass
+            ctx.fault("consumer_mutates_item")
 
     def op_next(self, op):
         t = self.tasks.get(op["task"])
